@@ -1,7 +1,7 @@
 (* C10 - reload (HUP) replaces every worker without refusing or cutting a request.
    Statements only; every proof is `exact` of a lemma of Proof/Reload*.v / Proof/ShutdownWorker.v. *)
 From Coq Require Import List ZArith Bool Lia.
-From GV Require Import Gen.GenArbiter Gen.GenShutdown Model.Shutdown Proof.ShutdownWorker Model.Reload Proof.ReloadBase Proof.ReloadInv Proof.ReloadCount Proof.ReloadThm.
+From GV Require Import Gen.GenArbiter Gen.GenShutdown Model.Shutdown Proof.ShutdownWorker Model.Reload Proof.ReloadBase Proof.ReloadInv Proof.ReloadCount Proof.ReloadThm Proof.ReloadSafe.
 Import ListNotations.
 Local Open Scope Z_scope.
 
@@ -57,11 +57,31 @@ Theorem resized_pool_after_convergence : forall n k a ls, 0 <= k -> told_only ls
   wlen s = cfgw s /\ (forall w, In w (workers s) -> hup_age s < w_age w /\ w_cfg w = cfgid s /\ w_lsn w = lsn s).
 Proof. exact converged_pool_resized. Qed.
 
-(* for ANY schedule, deaths included: a reload resets num_workers to the configured number *)
-Theorem count_after_reload : forall n k a ls,
+(* for ANY schedule without further TTIN / TTOU, deaths included: a reload resets num_workers to the configured number *)
+Theorem count_after_reload : forall n k a ls, no_resize ls = true ->
   let s := run (init_resized n k a) ls in 0 < cfgid s -> num s = cfgw s.
 Proof. exact ReloadCount.count_after_reload. Qed.
 Print Assumptions count_after_reload.
+
+(* what the three signals do to num_workers and cfg.workers, in any state *)
+Theorem dispatch_counts : forall s,
+  num (dispatch s SIGHUP) = disk_w s /\ cfgw (dispatch s SIGHUP) = disk_w s /\
+  num (dispatch s SIGTTIN) = num s + 1 /\
+  num (dispatch s SIGTTOU) = (if num s <=? 1 then num s else num s - 1) /\
+  cfgw (dispatch s SIGTTIN) = cfgw s /\ cfgw (dispatch s SIGTTOU) = cfgw s.
+Proof. exact ReloadCount.dispatch_counts. Qed.
+
+(* TTIN / TTOU anywhere - before, between and after the reloads: whenever the master is back at the top of its loop, every
+   worker that has not been retired was forked after the last reload began, with the Config object and the listeners of that
+   reload.  (With TTIN / TTOU under way the COUNT of unretired workers is not an invariant of the loop: after TTIN the missing
+   worker is spawned only once the told ones have been reaped, after TTOU new workers are told; num_workers itself is
+   dispatch_counts.) *)
+Theorem reload_generation_with_resizing : forall n cw a ls, no_untold_death ls = true ->
+  let s := run (init_resized n cw a) ls in
+  cur s = PSigq \/ cur s = PSelect ->
+  forall w, In w (workers s) -> retired s w = false -> hup_age s < w_age w /\ w_cfg w = cfgid s /\ w_lsn w = lsn s.
+Proof. exact reload_generation_safe. Qed.
+Print Assumptions reload_generation_with_resizing.
 
 Theorem resized_reload_keeps_listeners : forall n k a ls, addr_ok a ls = true ->
   let s := run (init_resized n k a) ls in
@@ -118,6 +138,15 @@ Example resized_example :
   let s := run (init_resized 3 2 0) ex_resized in
   told_only ex_resized = true /\ (cur s = PSigq \/ cur s = PSelect) /\ 0 < cfgid s /\ num (init_resized 3 2 0) = 3 /\
   map w_pid (workers s) = [103; 104] /\ num s = 2 /\ forallb (fun w => negb (retired s w)) (workers s) = true.
+Proof. vm_compute. repeat split; auto. Qed.
+(* HUP, then TTIN while the old workers are still around, then TTOU twice: the survivors are all of the new generation *)
+Definition ex_mixed : list label :=
+  [Hup] ++ repeat Master 9 ++ [Ttin] ++ repeat Master 6 ++ [ExitTold 100; ExitTold 101; Chld] ++ repeat Master 8 ++
+  [Ttou; Ttou] ++ repeat Master 12.
+Example mixed_example :
+  let s := run (init 2 0) ex_mixed in
+  no_untold_death ex_mixed = true /\ (cur s = PSigq \/ cur s = PSelect) /\ num s = 1 /\ cfgw s = 2 /\
+  map w_pid (workers s) = [102; 103; 104] /\ map (retired s) (workers s) = [true; true; false] /\ hup_age s = 2.
 Proof. vm_compute. repeat split; auto. Qed.
 Example old_worker_example :
   w_conn (wrun 768 (w_init GThread CApp 5000 512 0) [WTerm; WTick 256; WLoop; WTick 4000; WLoop; WTick 1000; WLoop]) = CDone.
